@@ -1,4 +1,5 @@
 """C16 — message bodies: type safe, value preserving, measured consistently (structural clauses, DESIGN §4 C16)."""
+import re
 from .engine.helpers import *
 
 EXPLANATION = (
@@ -118,7 +119,16 @@ _VDROP_NULLCHECK = None
 def r2_vtables(ctx):
     ctx.set_rule('C16.R2')
     P = ctx.P
-    vts = [f for f in P.fn_list if f.key.startswith(B + 'vtable') and f.kind == 'fn']
+    def _has_vtable_literal(f):
+        for body in [f] + list(f.promoted):
+            for b in sorted(body.reachable()):
+                for st in body.stmts(b):
+                    if st['k'] == 'assign' and st['r']['k'] == 'agg' and st['r'].get('adt', '').endswith('body::VTable'):
+                        return True
+        return False
+    # the providers of vtables: the generic `vtable*::<T>()` functions, or associated constants of a generic holder type
+    vts = [f for f in P.fn_list if f.key.startswith(B) and f.kind in ('fn', 'const', 'assocfn') and not f.key.startswith(BODY + '::') and _has_vtable_literal(f)]
+    VT_KEYS = {f.key for f in vts}
     ctx.floor('vtable constructors', len(vts), 3)
     for f in vts:
         ctx.touch(f)
@@ -160,15 +170,25 @@ def r2_vtables(ctx):
     ctx.floor('Body constructors', len(ctors), 4)
     for f in ctors:
         ctx.touch(f)
-        vt = [s for s in f.calls() if s.name.startswith(B + 'vtable')]
+        vt = [s for s in f.calls() if s.name in VT_KEYS]
+        vt_targs = [s.targs for s in vt]
+        # ... or a constant `Holder::<T>::NAME` among the providers
+        for b_ in sorted(f.reachable()):
+            for st in f.stmts(b_):
+                if st['k'] == 'assign' and st['r']['k'] == 'agg' and st['r'].get('adt', '').endswith('body::Body'):
+                    for o in st['r']['ops']:
+                        cd = o.get('cdef') if o.get('k') == 'const' else None
+                        if cd and strip_generics(cd) in VT_KEYS:
+                            m = re.findall(r'::<([^<>]*)>::', cd)
+                            vt_targs.append([x.strip() for x in m[0].split(',')] if m else [])
         bx = [s for s in f.calls() if s.name == 'std::boxed::Box::new']
         raw = [s for s in f.calls() if s.name == 'std::boxed::Box::into_raw']
-        ok = len(vt) == 1 and vt[0].targs == ['T'] and len(bx) == 1 and bx[0].targs[:1] == ['T'] and len(raw) == 1
+        ok = len(vt_targs) == 1 and vt_targs[0] == ['T'] and len(bx) == 1 and bx[0].targs[:1] == ['T'] and len(raw) == 1
         if ok:
             v = peel(f.expr_operand(bx[0].args[0], bx[0].b, 'T'))
             ok = v[0] == 'arg'
         ctx.check(ok, 'ctor:%s' % f.key.split('::')[-1], '%s boxes the given T and installs a vtable instantiated at the same T' % short(f.key), f.where(),
-                  {'vtable': vt and [vt[0].name, vt[0].targs], 'boxed': bx and bx[0].targs})
+                  {'vtable': vt_targs, 'boxed': bx and bx[0].targs})
     # the drop thunk
     fd = ctx.anchor(B + 'vdrop')
     if fd:
@@ -346,6 +366,11 @@ def r6_generic_measures(ctx):
             for s in g.calls():
                 if s.callee == MB + '::byte_len' and s.targs:
                     measured.add(s.targs[0])
+                # `T::byte_len` handed to an adaptor as a function value (`.map_or(0, T::byte_len)`, `.map(T::byte_len).sum()`)
+                for a in s.args:
+                    t = peel(g.expr_operand(a, s.b, 'T'))
+                    if t[0] == 'fnitem' and t[1] == MB + '::byte_len' and t[2]:
+                        measured.add(t[2][0])
                 if s.name in ('std::mem::size_of', 'std::mem::size_of_val'):
                     sizeof.append(s)
         missing = [p for p in bounds if p not in measured]
